@@ -173,24 +173,30 @@ Proof.
   eapply (layout_nested_spec engine router HE); [apply good_of_hyps; assumption | exact E].
 Qed.
 
-Lemma structure_eqb_refl_of_eq a b : structure a = structure b -> structure_eqb a b = true.
+Lemma pair_eqb_eq {A B} (ea : A -> A -> bool) (eb : B -> B -> bool) :
+  (forall x y, ea x y = true <-> x = y) -> (forall x y, eb x y = true <-> x = y) ->
+  forall x y : A * B, pair_eqb ea eb x y = true <-> x = y.
 Proof.
-  intro E. unfold structure_eqb. rewrite E.
-  assert (R1 : forall l, list_eqb (pair_eqb N.eqb optoptN_eqb) l l = true).
-  { intro l. apply list_eqb_eq; [|reflexivity]. intros [x1 x2] [y1 y2]. unfold pair_eqb. simpl.
-    rewrite andb_true_iff, N.eqb_eq. unfold optoptN_eqb.
-    split; [intros [H1 H2]; subst; f_equal | intro H; inversion H; subst; split; [reflexivity|]].
-    - destruct x2 as [x2|], y2 as [y2|]; simpl in *; try discriminate; try reflexivity. apply optN_eqb_eq in H2. congruence.
-    - destruct y2 as [y2|]; simpl; [apply optN_eqb_eq|]; reflexivity. }
-  assert (R2 : forall l : list N, list_eqb N.eqb l l = true) by (intro l; apply list_eqb_eq; [apply N.eqb_eq | reflexivity]).
-  assert (R3 : forall l, list_eqb (pair_eqb N.eqb (opt_eqb (list_eqb N.eqb))) l l = true).
-  { intro l. apply list_eqb_eq; [|reflexivity]. intros [x1 x2] [y1 y2]. unfold pair_eqb. simpl.
-    rewrite andb_true_iff, N.eqb_eq.
-    split; [intros [H1 H2]; subst; f_equal | intro H; inversion H; subst; split; [reflexivity|]].
-    - destruct x2 as [x2|], y2 as [y2|]; simpl in *; try discriminate; try reflexivity. apply path_eqb_eq in H2. congruence.
-    - destruct y2 as [y2|]; simpl; [apply path_eqb_eq|]; reflexivity. }
-  assert (R4 : forall l, list_eqb (pair_eqb (pair_eqb N.eqb N.eqb) N.eqb) l l = true).
-  { intro l. apply list_eqb_eq; [|reflexivity]. intros [[x1 x2] x3] [[y1 y2] y3]. unfold pair_eqb. simpl.
-    rewrite !andb_true_iff, !N.eqb_eq. split; [intros [[? ?] ?]; subst; reflexivity | intro H; inversion H; auto]. }
-  rewrite R1, R2, R3, R4. reflexivity.
+  intros Ha Hb [x1 x2] [y1 y2]. unfold pair_eqb. simpl. rewrite andb_true_iff, Ha, Hb.
+  split; [intros [? ?]; subst; reflexivity | intro H; inversion H; auto].
+Qed.
+
+Lemma opt_eqb_eq {A} (e : A -> A -> bool) :
+  (forall x y, e x y = true <-> x = y) -> forall x y : option A, opt_eqb e x y = true <-> x = y.
+Proof.
+  intros He [x|] [y|]; simpl; split; intro H; try reflexivity; try discriminate.
+  - apply He in H. congruence.
+  - inversion H. apply He. reflexivity.
+Qed.
+
+(* the boolean the checker evaluates is the equality of [structure] *)
+Lemma structure_eqb_eq a b : structure_eqb a b = true <-> structure a = structure b.
+Proof.
+  unfold structure_eqb. destruct (structure a) as [[l1 [l2 l3]] l4]. destruct (structure b) as [[m1 [m2 m3]] m4]. simpl.
+  rewrite !andb_true_iff.
+  rewrite (list_eqb_eq _ (pair_eqb_eq _ _ N.eqb_eq (opt_eqb_eq _ optN_eqb_eq))).
+  rewrite (list_eqb_eq _ N.eqb_eq).
+  rewrite (list_eqb_eq _ (pair_eqb_eq _ _ N.eqb_eq (opt_eqb_eq _ path_eqb_eq))).
+  rewrite (list_eqb_eq _ (pair_eqb_eq _ _ (pair_eqb_eq _ _ N.eqb_eq N.eqb_eq) N.eqb_eq)).
+  split; [intros [[[? ?] ?] ?]; subst; reflexivity | intro H; inversion H; auto].
 Qed.
